@@ -17,7 +17,7 @@ import re
 
 from engine import absint
 from engine.absint import Abort, mk_adt
-from engine.cfg import op_place
+from engine.cfg import op_place, expr_of
 from engine.facts import AnchorMissing
 from . import matrix
 from .common import user_body, calls, name_of, has_name, origin_has_call, origin_calls
@@ -453,6 +453,126 @@ def check_optional_by_emptiness(db, chk):
     chk.info("encode arms storing None as a fresh empty value: %d" % m)
 
 
+def _option_shapes(c, op, depth=12, seen=None):
+    """How the Option in `op` is built: {'Some', 'None', 'call:<name>', 'other'} following plain copies / moves only."""
+    seen = seen if seen is not None else set()
+    p = op_place(op)
+    if p is None:
+        return {"other"}
+    if len(p) > 1 or depth <= 0:
+        return {"other"}
+    l = p[0]
+    if l in seen:
+        return set()
+    seen.add(l)
+    d = c.defs.get(l)
+    if not d or d["part"] or d["mut"] or not d["whole"]:
+        return {"other"}
+    out = set()
+    for df in d["whole"]:
+        if df[0] == "assign":
+            rv = df[3]["rv"]
+            if rv["r"] == "agg" and (rv.get("adt") or "").endswith("option::Option"):
+                out.add(rv["variant"])
+            elif rv["r"] == "use":
+                out |= _option_shapes(c, rv["op"], depth - 1, seen)
+            else:
+                out.add("other")
+        elif df[0] == "call":
+            out.add("call:%s" % name_of(df[2]).split("::")[-1])
+        else:
+            out.add("other")
+    return out
+
+
+def _domain_field(e):
+    """(variant-or-None, field) for an expression reading an Option field of parameter 1, through as_ref / clone / map ..."""
+    hops = 0
+    while isinstance(e, tuple) and hops < 12:
+        hops += 1
+        if e[0] in ("ref", "deref"):
+            e = e[1]
+        elif e[0] == "call" and e[2] and (e[1] or "").split("::")[-1] in ("as_ref", "clone", "map", "cloned", "copied", "as_deref", "get", "and_then"):
+            e = e[2][0]
+        else:
+            break
+    if not (isinstance(e, tuple) and e[0] == "field"):
+        return None
+    fld, base, variant = e[2], e[1], None
+    while isinstance(base, tuple) and base[0] in ("ref", "deref", "as", "field"):
+        if base[0] == "as" and variant is None:
+            variant = base[2]
+        base = base[1]
+    if not (isinstance(base, tuple) and base[0] == "param"):
+        return None
+    return variant, fld, base[1]
+
+
+def check_optional_by_default(db, chk):
+    """The other way protobuf loses an Option: a scalar / enum / string field stores `None` as the default value
+    (`x.unwrap_or(0)`, `.unwrap_or_default()`, `.map_or(0, ..)`).  Then the default value means None, and the decoder has to
+    give None back for it: a decoder that wraps every stored value in Some turns the None that was written into Some(default),
+    which is a different value (and, for Operation::Update.update_mode, a different manifest when it is applied)."""
+    R = "TABLE-default-is-none"
+    chk.rule(R, "an Option field stored through unwrap_or / unwrap_or_default / map_or is rebuilt by a decoder that can produce None")
+    convs = conversions(db)
+    n = 0
+    for f in convs:
+        src_ty = norm(f.locals[1]["ty"])
+        dst_ty = result_inner(norm(f.locals[0]["ty"]))
+        if not ("pb::" in dst_ty and "pb::" not in src_ty):
+            continue
+        for g in f.family():
+            if not g.focus:
+                continue
+            for b, t in g.cfg.calls():
+                nm = name_of(t)
+                if "Option" not in nm or not any(nm.endswith(x) for x in ("::unwrap_or", "::unwrap_or_default", "::map_or", "::unwrap_or_else")):
+                    continue
+                vf = _domain_field(expr_of(g, t["args"][0]))
+                if vf is None:
+                    continue
+                variant, fld, pn = vf
+                if g is f and pn != 1:
+                    continue
+                if g is not f:
+                    # a closure mapping over part of the source (`deletion_file.map(|d| pb::DeletionFile {..})`): the value it
+                    # converts is its own argument
+                    if pn < 2 or pn >= len(g.locals) or "pb::" in norm(g.locals[pn]["ty"]):
+                        continue
+                src_adt = (src_ty if g is f else norm(g.locals[pn]["ty"])).lstrip("&").split("<")[0].strip()
+                if fld == "operation":
+                    continue
+                owner = "dataset::transaction::Operation" if variant and "operation" in str(expr_of(g, t["args"][0])) else src_adt
+                shapes, where = set(), None
+                for d in convs:
+                    dty = result_inner(norm(d.locals[0]["ty"])).split("<")[0]
+                    if "pb::" in dty or (owner != "dataset::transaction::Operation" and dty != owner) or \
+                            (owner == "dataset::transaction::Operation" and not dty.endswith("transaction::Transaction")):
+                        continue
+                    for k in d.family():
+                        if not k.focus:
+                            continue
+                        for i, j, st in k.cfg.aggregates(adt=owner.split("::")[-1]):
+                            rv = st["rv"]
+                            if not (rv["adt"] or "").endswith(owner) or (owner.endswith("Operation") and rv["variant"] != variant):
+                                continue
+                            if fld in rv["fields"]:
+                                shapes |= _option_shapes(k.cfg, rv["ops"][rv["fields"].index(fld)])
+                                where = k.loc(st["ln"])
+                if not shapes:
+                    chk.info("%s.%s is stored by default value; no decoder aggregate found in reach" % (owner.split("::")[-1], fld))
+                    continue
+                n += 1
+                chk.analysed(f)
+                only_some = shapes == {"Some"}
+                chk.ob(R, "%s%s.%s" % (owner.split("::")[-1], ("::" + variant) if variant else "", fld), not only_some,
+                       "%s stores `%s` through %s (None becomes the default value); the decoder builds the field as %s%s" % (
+                           f.path.split(" for ")[-1] if " for " in f.path else f.path, fld, nm.split("::")[-1], sorted(shapes),
+                           " -- never None: the None that was written comes back as Some(default)" if only_some else ""), where or f.loc(t["ln"]))
+    chk.floor(R, "Option fields stored by default value with a decoder in reach", n, 8)
+
+
 def _stored_name(c, op):
     p = op_place(op)
     for _ in range(6):
@@ -491,5 +611,6 @@ def run(db, chk):
     check_operation_decode(db, chk)
     check_enum_tables(db, chk)
     check_optional_by_emptiness(db, chk)
+    check_optional_by_default(db, chk)
     chk.sample({"conversion": pairs[0] if pairs else None, "total_pairs": len(pairs)})
     chk.assume("prost encode/decode of a message is lossless for the fields it is given")
